@@ -317,7 +317,7 @@ func main() {
 			gallina.List(tl), gallina.List(bl), gallina.Bool(beof), gallina.List(ol), gallina.Bool(oeof))
 		cf.Add(term)
 		inShard++
-		if inShard >= 150 {
+		if inShard >= 100 {
 			flush()
 		}
 		var classes []string
@@ -353,7 +353,7 @@ func main() {
 	for _, c := range corpus() {
 		emit(c.sc, c.known, c.name)
 	}
-	n := f.Count(300, 9000)
+	n := f.Count(240, 9000)
 	for i := 0; i < n; i++ {
 		r := gen.Fork(f.Seed, i)
 		kind := 0
